@@ -447,6 +447,16 @@ func (h *harness) forgeries(c *niCase, variant int, cs ctxSpec, r *vh.Rng) {
 			h.prop("forgery-"+name+"/fs/"+c.id, ct, "a simulated transcript (no witness) whose challenge was derived "+name+" is accepted", "fs_accept_iff: the challenge must be derived from (context, statement, commitment)")
 		}
 	}
+	if c.adaptive != nil {
+		proof, stmt, verdict := c.adaptive(r, func(a []byte) []byte { return derive(false, a) })
+		if verdict != nil {
+			ct := fmt.Sprintf("adaptive %s fs v%d stmt=%s %s proof=%s", c.id, variant, vh.Hex(stmt), cs.text(), vh.Hex(proof))
+			h.res.Count("forgery-statement-chosen-after-challenge/fs", ct, true)
+			if verdict(cs) == "1" {
+				h.prop("forgery-statement-chosen-after-challenge/fs/"+c.id, ct, "a proof whose challenge was derived without the statement is accepted for a statement chosen afterwards", "fs_accept_iff / fs_wrong_statement: the statement must enter the challenge")
+			}
+		}
+	}
 	try("without-commitment", derive(true, nil))
 	try("with-random-challenge", r.Bytes(c.L))
 	// challenge derived for another commitment
